@@ -125,6 +125,13 @@ class BVEmitter:
             elif self.ufs[sym] != sig:
                 raise ValueError("BV emit: uf %s used with two signatures" % sym)
             e = "(%s %s)" % (sym, " ".join(R(x, ww) for x, ww in zip(a, widths)))
+        elif op.startswith("uf:"):
+            fname = "|%s#%s|" % (op, t.aux)
+            if fname not in self.vars:
+                sorts = " ".join("(_ BitVec %d)" % (x.w if isinstance(x, Term) else 8) for x in a)
+                self.lines.append("(declare-fun %s (%s) (_ BitVec %d))" % (fname, sorts, w))
+                self.vars[fname] = (fname, None)
+            e = "(%s %s)" % (fname, " ".join(R(x, 8) for x in a))
         else:
             raise ValueError("BV emit: " + op)
         self.lines.append("(define-fun %s () (_ BitVec %d) %s)" % (name, w, e))
@@ -139,7 +146,7 @@ class BVEmitter:
             s.append("(assert %s)" % a)
         s.append("(check-sat)")
         if get_model and self.vars:
-            s.append("(get-value (%s))" % " ".join(nm for nm, w in self.vars.values()))
+            s.append("(get-value (%s))" % " ".join(nm for nm, w in self.vars.values() if w is not None))
         return "\n".join(s) + "\n"
 
 
